@@ -1,5 +1,5 @@
 (* C05 - Values a column cannot represent are rejected, never silently altered. *)
-From Verif Require Import Conv Conv_proofs SerializerTables SerTablesSpec DictBuilder UnionBuilder Builder_proofs Refine_proofs Progress_proofs FloatOfInt FloatOfInt_proofs.
+From Verif Require Import Conv Conv_proofs SerializerTables SerTablesSpec DictBuilder UnionBuilder Builder_proofs Refine_proofs Progress_proofs FloatOfInt FloatOfInt_proofs FloatRoutes_proofs.
 
 (* Full-strength statement (kept visible): on every serialization cell of the run the C01 oracle
    is evaluated inside Coq (accepted => the arrays decode to exactly interp(value); a value outside
@@ -142,6 +142,22 @@ Proof.
   intros m x q qe Hm H Hx. destruct (round_scaled_rounded 24 (-149) m x q qe ltac:(reflexivity) Hm H Hx) as (_ & _ & H1 & H2). split; assumption.
 Qed.
 
+(* ... so widening loses nothing that narrowing could not give back: every Float32 word that is not a NaN - zeros of both signs,
+   subnormals, normal numbers, infinities - survives `as f64` followed by `as f32` bit for bit (a Float32 column read as f64, e.g. into
+   serde_json numbers, and written into a Float32 column again) *)
+Theorem C05_float_widen_then_narrow_is_identity : forall x, (0 <= x < 2 ^ 32)%Z ->
+  (forall frac, snd (classify 24 127 32 x) <> FNaN frac) -> f32_of_f64 (f64_of_f32 x) = x.
+Proof. exact widen_narrow. Qed.
+
+Example C05_float_round_trip_example :
+  List.map (fun x => f32_of_f64 (f64_of_f32 x)) [0; 1; 8388607; 8388608; 1065353216; 2139095039; 2139095040; 2147483648; 2147483649; 4286578688]%Z
+  = [0; 1; 8388607; 8388608; 1065353216; 2139095039; 2139095040; 2147483648; 2147483649; 4286578688]%Z.
+Proof. vm_compute. reflexivity. Qed.
+
+(* the casts of the float readers (float_impls.rs) and float builders are the ones modelled, regenerated from the source on every run *)
+Theorem C05_float_casts_table : float_casts_ok = true.
+Proof. vm_compute. reflexivity. Qed.
+
 Print Assumptions C05_unrepresentable_is_rejected.
 Print Assumptions C05_fixed_width_total.
 Print Assumptions C05_bytes_total.
@@ -149,3 +165,4 @@ Print Assumptions C05_ser_int_exact.
 Print Assumptions C05_de_exact.
 Print Assumptions C05_union_unknown_variant.
 Print Assumptions C05_float_narrowing_is_nearest.
+Print Assumptions C05_float_widen_then_narrow_is_identity.
